@@ -676,6 +676,40 @@ func rulePREC2(c *Ctx) {
 			})
 		}
 	}
+	// the same mapping written as a lookup in a constant table keyed by the token's type
+	ast.Inspect(fd.Body, func(n ast.Node) bool {
+		as, ok := n.(*ast.AssignStmt)
+		if !ok || len(as.Rhs) != 1 || len(as.Lhs) < 1 {
+			return true
+		}
+		key, entries, ok := constTable(p, pk, as.Rhs[0])
+		if !ok {
+			return true
+		}
+		sel, isSel := ast.Unparen(key).(*ast.SelectorExpr)
+		if !isSel || sel.Sel.Name != "Type" || usesObj(info, sel.X) != assocTok {
+			return true
+		}
+		// stored into the Associativity field directly, or into a local that is
+		target := as.Lhs[0]
+		isAssoc := isFieldNamed(info, target, "Associativity")
+		if o := usesObj(info, target); o != nil && !isAssoc {
+			for _, v := range storesTo("Associativity") {
+				if usesObj(info, v) == o {
+					isAssoc = true
+				}
+			}
+		}
+		if !isAssoc {
+			return true
+		}
+		for _, en := range entries {
+			if k, isK := usesObj(info, en.Val).(*types.Const); isK && en.Key != nil {
+				got[spell[en.Key]] = k.Name()
+			}
+		}
+		return true
+	})
 	for sp, k := range want {
 		c.check(got[sp] == k, rule, "parser.on_parser_qualif/assoc("+sp+")", p.Pos(fd.Pos()), sp+" => ast."+k, fmt.Sprintf("%s is mapped to ast.%s, not ast.%s", sp, got[sp], k))
 	}
@@ -1378,4 +1412,10 @@ func ruleCFL4(c *Ctx) {
 	// the table is built by ConstructLALR from the analysed grammar
 	okBuild := len(findCalls(info, fd.Body, false, func(fn *types.Func, _ *ast.CallExpr) bool { return fullName(fn) == lr1Path+".ConstructLALR" })) == 1
 	c.check(okBuild, rule, "codegen.context.ParseLox/construct", p.Pos(fd.Pos()), "the parser table is built by lr1.ConstructLALR", "ParseLox does not build the table with lr1.ConstructLALR exactly once")
+}
+
+
+func isFieldNamed(info *types.Info, e ast.Expr, name string) bool {
+	fv, _ := selField(info, e)
+	return fv != nil && fv.Name() == name
 }
